@@ -24,7 +24,7 @@ var schedPlans = map[string][]string{
 	"C07": {"S12-wux"},
 	"C14": {"E-"},
 	"C20": {"X-", "O-open2-pending"},
-	"C13": {"O-"},
+	"C13": {"O-", "X-Close-vs-Close-same-handle"},
 	"C04": {"H-"},
 	"C17": {"V-"},
 	"C16": {"T-", "O-lastclose", "B-two-starts"},
@@ -54,6 +54,7 @@ var genPlans = map[string][]genPlan{
 		{kind: "views", quickDepth: 4, thoroughDepth: 4}},
 	"C12": {{kind: "views", quickDepth: 4, thoroughDepth: 4}, {kind: "views", cfg: Config{Disk: true}, quickDepth: 2, thoroughDepth: 3}},
 	"C13": {{kind: "registry", quickDepth: 4, thoroughDepth: 6}},
+	"C20": {{kind: "views", quickDepth: 2, thoroughDepth: 3}},
 	"C19": {{kind: "queries", quickDepth: 3, thoroughDepth: 4}, {kind: "queries", cfg: Config{Disk: true}, quickDepth: 3, thoroughDepth: 4}},
 	"C14": {{kind: "expiry", quickDepth: 4, thoroughDepth: 5}, {kind: "expiry", cfg: Config{Disk: true}, quickDepth: 3, thoroughDepth: 4}},
 	"C16": {{kind: "feeds", cfg: Config{Disk: true}, quickDepth: 4, thoroughDepth: 5}, {kind: "feeds", quickDepth: 4, thoroughDepth: 5}},
@@ -125,6 +126,7 @@ func RunCheck(prop, tier string, procs int, budget time.Duration) int {
 		}
 	}
 	if prop == "C13" {
+		RunOpenFailureScript(rep)
 		// "an on-disk bucket's data is intact when reopened after its last handle closed": the on-disk KV BFS,
 		// whose every transition ends with the reopen differential (kvworld.go)
 		known = true
